@@ -186,7 +186,8 @@ def requests(cfg, rng, n, tier, part, nparts, st):
             yield 'pd', (bytes(ds), r)
             yield 'pd', (bytes([0] * (len(ds) + 1) + ds), r)
             yield 'pd', (bytes(to_digits(cfg.mask + 1, r)), r)
-    stride = 1 if (tier == 'thorough' or cfg.bits <= 512) else 8
+    # bounded by the budget of the configuration: every bit length when affordable, otherwise a seed-dependent stride
+    stride = max(1, -(-(cfg.bits + 1) // max(256, 2 * n * nparts)))
     ks = list(range(rng.randrange(stride), cfg.bits + 2, stride))
     lo, hi = (len(ks) * part // nparts, len(ks) * (part + 1) // nparts)
     for k in ks[lo:hi]:
